@@ -20,6 +20,16 @@ type Taint struct {
 	Rets    map[*ssa.Function]bool // function may return a tainted value
 	funcs   []*ssa.Function
 	why     map[ssa.Value]ssa.Value
+	// Ext: calls that hand a tainted value to code outside the module (or to an unresolved callee)
+	Ext    []extUse
+	extSet map[ssa.Instruction]bool
+}
+
+// extUse is a tainted value passed to a function the analysis cannot see into.
+type extUse struct {
+	In     ssa.Instruction
+	Callee string
+	Arg    ssa.Value
 }
 
 func isByteSliceish(t types.Type) bool { return sliceish(t, map[types.Type]bool{}, 0) }
@@ -283,6 +293,39 @@ func (t *Taint) call(f *ssa.Function, res *ssa.Call, cc *ssa.CallCommon) bool {
 					if e.Site == ssa.CallInstruction(res) && e.Callee.Func != nil {
 						callees = append(callees, e.Callee.Func)
 					}
+				}
+			}
+		}
+	}
+	// tainted values handed to code outside the module
+	{
+		external := cc.IsInvoke() || len(callees) == 0
+		name := callString(cc)
+		for _, callee := range callees {
+			if !inModule(callee) {
+				external = true
+			}
+		}
+		if external {
+			var in ssa.Instruction = res
+			if res == nil {
+				in = nil
+			}
+			for _, a := range cc.Args {
+				if t.Vals[a] {
+					if t.extSet == nil {
+						t.extSet = map[ssa.Instruction]bool{}
+					}
+					key := in
+					if key == nil {
+						// defer / go: key by the first argument's defining instruction is not available; use a per-callee marker
+						continue
+					}
+					if !t.extSet[key] {
+						t.extSet[key] = true
+						t.Ext = append(t.Ext, extUse{In: in, Callee: name, Arg: a})
+					}
+					break
 				}
 			}
 		}
